@@ -23,4 +23,23 @@ for node in ast.walk(tree):
             left = ast.unparse(node.left)
             lits.append({"left": left, "op": type(node.ops[0]).__name__, "tuple": [e.value for e in tup.elts]})
 out["check_header_tuple_compares"] = lits
+
+
+def body_calls(fn):
+    """the calls a method body makes, in order, as dotted names (statements that are plain calls only;
+    anything else is reported as 'stmt:<kind>' so that the translator can refuse it)"""
+    tree = ast.parse(textwrap.dedent(inspect.getsource(fn)))
+    calls = []
+    for st in tree.body[0].body:
+        if isinstance(st, ast.Expr) and isinstance(st.value, ast.Constant):
+            continue                                  # docstring
+        if isinstance(st, ast.Expr) and isinstance(st.value, ast.Call):
+            calls.append(ast.unparse(st.value.func))
+        else:
+            calls.append("stmt:" + type(st).__name__)
+    return calls
+
+
+out["flush_body"] = body_calls(nf.File.flush)
+out["close_body"] = body_calls(nf.File.close)
 json.dump(out, sys.stdout)
